@@ -1,9 +1,11 @@
 import logging
 import itertools
 import math
+import re
 import signal
 from enum import Enum
 from qbee import grammar
+from qbee.exceptions import SyntaxError
 from pyparsing.exceptions import ParseException
 from .instrs import op_code_to_instr
 from .utils import format_number
@@ -1238,6 +1240,17 @@ class QvmCpu:
             value = float(literal.eval())
         except ParseException:
             value = 0.0
+        except SyntaxError:
+            # A numeral that is not a valid *literal* of its implied type
+            # (too large for LONG or SINGLE, e.g. "2147483648" or "1E39")
+            # still has a value as a double.
+            m = re.match(
+                r'\s*[+-]?(\d+\.?\d*|\.\d+)([eEdD][+-]?\d+)?', string)
+            try:
+                value = float(
+                    m.group(0).lower().replace('d', 'e')) if m else 0.0
+            except OverflowError:
+                value = float('inf')
         self.push(CellType.DOUBLE, value)
 
     def _exec_sign(self):
